@@ -4,7 +4,7 @@ import UtilModel.Model.Prelude
 
 A *case* is scripted: constraint, before/after hooks, error predicate, what the type's
 Marshal*/Unmarshal* does, expected data/value. The helpers are transliterated over small models of
-the `testify/assert` functions they call; the output is, per case, whether a failure was reported,
+the `testify/assert` functions they call (and of a scripted custom `TypeHelper`); the output is, per case, whether a failure was reported,
 plus whether `FailNow` was called.
 -/
 namespace U.TestKit
@@ -143,23 +143,65 @@ def marshalCase (binary : Bool) (c : Case) : Bool :=
         if res then rep || b.isSome      -- assert.Nil(b): an empty non-nil slice is not nil
         else rep
 
-/-- value stored by the scripted unmarshal call and the error the helper sees -/
-def unmarshalResult : UBeh → Int × ErrV
-  | .ok s => (s.getD 0, .none)
-  | .err t s => (s.getD 0, .text t)
-  | .panic t s => (s.getD 0, .panicked t)
+/-! ## the `TypeHelper[T]` argument of the Unmarshal helpers
 
-/-- one applicable case of `UnmarshalText/Binary/JSON` (nil `TypeHelper`) -/
-def unmarshalCase (c : Case) : Bool :=
+`none` is the nil helper (`reflect`/`assert.Empty`/`assert.Equal`). A custom helper is scripted by four
+numbers; its three methods are deliberately unlike the defaults: `New` does not return a zero value,
+`AssertEmpty` has its own idea of "empty", and `AssertEqual` is **asymmetric** in (expected, actual). -/
+structure HelperBeh where
+  start : Int       -- `New(value)` returns a fresh value holding `start`, plus `value` when `addArg`
+  addArg : Bool
+  emptyIs : Int     -- `AssertEmpty(t, v, _)` reports iff `v ≠ emptyIs`
+  eqMod : Nat       -- `AssertEqual(t, expected, actual, _)` reports iff `actual mod eqMod ≠ expected` (`x mod 0 = x`)
+  deriving DecidableEq, Repr
+
+def HelperBeh.new (b : HelperBeh) (value : Int) : Int := b.start + (if b.addArg then value else 0)
+/-- reported? -/
+def HelperBeh.assertEmpty (b : HelperBeh) (v : Int) : Bool := v != b.emptyIs
+/-- reported? -/
+def HelperBeh.assertEqual (b : HelperBeh) (expected actual : Int) : Bool := actual % (b.eqMod : Int) != expected
+
+/-- `helperNew(helper, c.Value)` of test.go -/
+def helperNew (hb : Option HelperBeh) (value : Int) : Int :=
+  match hb with
+  | none => 0                          -- zero value / fresh pointer to one
+  | some b => b.new value
+
+/-- `helperAssertEmpty(helper, t, v, failInfo)`: reported? -/
+def helperAssertEmpty (hb : Option HelperBeh) (v : Int) : Bool :=
+  match hb with
+  | none => v != 0                     -- assert.Empty(v)
+  | some b => b.assertEmpty v
+
+/-- `helperAssertEqual(helper, t, expected, actual, failInfo)`: reported? -/
+def helperAssertEqual (hb : Option HelperBeh) (expected actual : Int) : Bool :=
+  match hb with
+  | none => actual != expected         -- assert.Equal(expected, actual)
+  | some b => b.assertEqual expected actual
+
+/-- value the scripted unmarshal call stores (`none`: the receiver is left as `New` made it) -/
+def unmarshalStored : UBeh → Option Int
+  | .ok s => s | .err _ s => s | .panic _ s => s
+
+/-- the error the helper sees after the scripted unmarshal call -/
+def unmarshalErr : UBeh → ErrV
+  | .ok _ => .none | .err t _ => .text t | .panic t _ => .panicked t
+
+/-- receiver after the scripted unmarshal call on a receiver holding `init`, and the error -/
+def unmarshalResult (init : Int) (u : UBeh) : Int × ErrV :=
+  ((unmarshalStored u).getD init, unmarshalErr u)
+
+/-- one applicable case of `UnmarshalText/Binary/JSON` with the given `TypeHelper` (`none` = nil) -/
+def unmarshalCase (hb : Option HelperBeh) (c : Case) : Bool :=
   if hookFails c.before then true
   else
-    let (v, err) := unmarshalResult c.ubeh
+    let (v, err) := unmarshalResult (helperNew hb c.value) c.ubeh
     if hookFails c.after then true
     else match c.pred with
-      | .none => if !err.isNil then true else v != c.value        -- assert.Equal(c.Value, v)
+      | .none => if !err.isNil then true else helperAssertEqual hb c.value v
       | p =>
         let (res, rep) := applyPred p err
-        if res then rep || v != 0                                  -- assert.Empty(v)
+        if res then rep || helperAssertEmpty hb v
         else rep
 
 /-- does the case type provide the interface the helper needs? -/
@@ -169,8 +211,9 @@ def implements (h : Helper) (tk : TypeKind) : Bool :=
   | .tp => !h.isMarshal          -- value of a pointer-receiver type: only `&value` implements
   | _ => true
 
-/-- the helper: `(FailNow called, reported?)` per case -/
-def run (h : Helper) (tk : TypeKind) (cases : List Case) : Bool × List Bool :=
+/-- the helper: `(FailNow called, reported?)` per case; `hb` is the `TypeHelper` argument, which only
+the three Unmarshal helpers have -/
+def run (h : Helper) (tk : TypeKind) (hb : Option HelperBeh) (cases : List Case) : Bool × List Bool :=
   match cases with
   | [] => (false, [])
   | _ =>
@@ -178,6 +221,6 @@ def run (h : Helper) (tk : TypeKind) (cases : List Case) : Bool × List Bool :=
     else
       (false, cases.map fun c =>
         if h.isMarshal then (if isForMarshal c.constraint then marshalCase h.isBinary c else false)
-        else (if isForUnmarshal c.constraint then unmarshalCase c else false))
+        else (if isForUnmarshal c.constraint then unmarshalCase hb c else false))
 
 end U.TestKit
